@@ -2,7 +2,7 @@
    Statements only; proofs in Proofs/C02.v (pure logic from C02's lower bound / attainment).
    By C02_value, [best_value] IS what Six / Seven ranking returns, and [value5] what Five returns. *)
 From CKC Require Import Base.Prelude Spec.Layout.
-From CKC Require Import Model.Five Proofs.CombFacts Proofs.C01 Proofs.C02.
+From CKC Require Import Model.Five Proofs.CombFacts Proofs.C01 Proofs.TableFacts Proofs.C02.
 Open Scope N_scope.
 
 (* any m cards (5 <= m) taken from the hand, in any order, rank no better than the whole hand *)
